@@ -90,6 +90,19 @@ func freshWindowScenario(c *Ctx, rounds int) {
 			}
 			secret := bytes.Repeat([]byte(fmt.Sprintf("secret-of-connection-%d-", round)), 40)
 			if round%2 == 0 {
+				// the first compressed message of a connection must be decodable by a peer whose history is EMPTY, although the
+				// compressor it comes from (pool of one) has just served other connections that kept a context; the second
+				// message makes that compressor hold this connection's window for the next round
+				common := bytes.Repeat([]byte("text-every-connection-sends-"), 30)
+				first := append(append([]byte{}, common...), secret[:200]...)
+				nb := tap.numWrites()
+				_ = conn.WriteMessage(gws.OpcodeText, first)
+				rx := &rfcReceiver{server: true, takeover: true, bits: bits}
+				if ms, problem := rx.receive(joinSlices(tap.writeCalls()[nb:])); problem != "" || len(ms) != 1 || !bytes.Equal(ms[0].Payload, first) {
+					c.oracleFail(fmt.Sprintf("the first compressed message of a connection cannot be decoded by a peer with an empty history (%s): the shared compressor still sees a window of an earlier connection [%s]", problem, tag),
+						"window-two-owners", map[string]any{"tag": tag})
+				}
+				_ = conn.WriteMessage(gws.OpcodeText, first)
 				_ = conn.WriteMessage(gws.OpcodeText, secret)
 				// the application still holds the PREVIOUS (finished) connection and writes on it: the calls fail, and they
 				// must not reach into a window that now belongs to this connection
